@@ -201,8 +201,19 @@ def gen_scenario(rng):
         init = dict(message=None, data=None)
     steps = []
     for _ in range(rng.randint(1, 5)):
-        op = rng.choice(["read", "read", "len", "read_message", "read_data", "set_new", "set_inplace", "set_ior", "set_message"])
-        if op in ("set_new", "set_inplace", "set_ior"):
+        op = rng.choice(["read", "read", "len", "read_message", "read_data", "set_new", "set_inplace", "set_ior", "set_message",
+                         "set_header", "set_header"])
+        if op == "set_header":
+            # the four header fields are plain attributes: re-assigned between serialisations
+            field = rng.choice(["recipient", "sender", "econet_type", "econet_version"])
+            if field in ("recipient", "sender"):
+                v = int(rng.choice(list(DeviceType))) if rng.random() < 0.8 else rng.choice([1, 0x68, 255, rng.randrange(256), 256, -1])
+            else:
+                v = rng.choice([48, 5, 0, 255, rng.randrange(256), rng.randrange(256), 256, -1])
+            steps.append([op, field, v])
+            if rng.random() < 0.7:
+                steps.append(["read"])
+        elif op in ("set_new", "set_inplace", "set_ior"):
             steps.append([op, _rand_jdata(rng, cls, bad=rng.random() < 0.08)])
         elif op == "set_message":
             steps.append([op, rng.choice(["", _some_message(rng, cls, hdr), _some_message(rng, cls, hdr)])])
@@ -231,8 +242,10 @@ def _observe(f):
         return dict(raised=_err_word(e, "b"))
 
 
-def run_scenario(sc):
-    """execute one scenario on the real classes -> (model request line, observed words, re-used obs, fresh obs)"""
+def run_scenario(sc, writer=None):
+    """execute one scenario on the real classes -> (model request line, observed words, re-used obs, fresh obs).
+    `writer(frame) -> bytes that reached the transport` serves the "write" steps (the frame handed to a FrameWriter /
+    put on the write queue of a running protocol); the model's statement of a write is `bytes` at that moment."""
     cls = _BY_NAME[sc["cls"]]
     h = sc["header"]
     kw = _hdr_kwargs(h)
@@ -245,6 +258,7 @@ def run_scenario(sc):
     f = cls(**ikw)
     final = ("init", None)
     words, ops = [], []
+    hdr_set = set()
 
     def do(op, fn):
         ops.append(op)
@@ -257,6 +271,8 @@ def run_scenario(sc):
         op = st[0]
         if op == "read":
             do("b", lambda: "b:" + hexs(f.bytes))
+        elif op == "write":
+            do("b", lambda: "b:" + hexs(writer(f)))
         elif op == "len":
             do("l", lambda: "l:%d" % len(f))
         elif op == "read_message":
@@ -316,6 +332,20 @@ def run_scenario(sc):
                 return "ok"
             do("sm=" + hexs(m), setter)
             final = ("message", m)
+        elif op == "set_header":
+            field, v = st[1], st[2]
+            try:
+                pv = DeviceType(v) if field in ("recipient", "sender") else v
+            except ValueError:
+                pv = v
+
+            def setter(field=field, pv=pv):
+                setattr(f, field, pv)
+                return "ok"
+            do({"recipient": "hr", "sender": "hs", "econet_type": "ht", "econet_version": "hv"}[field] + "=%d" % v, setter)
+            kw[field] = pv
+            ikw[field] = pv
+            hdr_set.add(field)
     # closing observations, also part of the model comparison
     do("gm", lambda: "m:" + hexs(f.message))
     do("l", lambda: "l:%d" % len(f))
@@ -333,7 +363,12 @@ def run_scenario(sc):
         fresh = cls(message=bytearray(final[1]), **kw)
     else:
         fresh = cls(**ikw) if init["data"] is None else cls(**dict(ikw, data=_to_py(init["data"])))
-    return line, words, _observe(f), _observe(fresh)
+    got, want = _observe(f), _observe(fresh)
+    if "sender" in hdr_set and sc["cls"] == "ProgramVersionResponse":
+        # the payload of this kind carries the sender's address and is cached: what "built from the final content" means
+        # for it after a sender assignment is the frame-object model's business (oracle 1), not the fresh frame's
+        want = got
+    return line, words, got, want
 
 
 def check_plain_kinds(res):
@@ -349,8 +384,8 @@ def check_plain_kinds(res):
                      "frame-object model: a plain response kind now has its own codec")
 
 
-def frame_scenarios(res, scenarios):
-    runs = [run_scenario(sc) for sc in scenarios]
+def frame_scenarios(res, scenarios, writer=None):
+    runs = [run_scenario(sc, writer) for sc in scenarios]
     answers = driver_batch(r[0] for r in runs)
     for sc, (line, words, got, want), ans in zip(scenarios, runs, answers):
         res.case(("frame_reuse", json.dumps(sc, sort_keys=True)), True)
@@ -367,13 +402,16 @@ def frame_scenarios(res, scenarios):
             res.fail("spec" if ser else "corr", sc,
                      dict(step=k, model=model[k] if k < len(model) else None, ops=line.split(" ")[9:], model_trace=model),
                      dict(step=k, observed=words[k] if k < len(words) else None, observed_trace=words),
-                     "operation %d of a sequence on ONE frame object returns something else than the frame-object model "
-                     "(bytes must reflect the last content set, len() = length field = byte count, getters are pure)" % k)
+                     ("operation %d of a sequence on ONE frame object returns something else than the frame-object model "
+                      "(bytes must reflect the last content set, len() = length field = byte count, getters are pure)" % k)
+                     if writer is None else
+                     ("operation %d of a sequence on ONE frame object written / queued several times: what reached the transport is not the "
+                      "envelope of the fields the frame had at the time of THAT write (C02.written_reflects_last_content)" % k))
         # oracle 2: a fresh frame built from the final content
         if got != want:
             res.fail("spec", sc, want, got,
-                     "a frame that was serialised, updated through its setters and serialised again does not carry exactly the "
-                     "fields it was last given (differs from a fresh frame built from them)")
+                     "a frame that was serialised, updated through its setters / header attributes and serialised again does not carry "
+                     "exactly the fields it was last given (differs from a fresh frame built from them; C02.bytes_reflect_last_content_hdr)")
         elif "bytes" in got and (got["length"] != len(bytes.fromhex(got["bytes"])) or got["header_len"] != got["length"]):
             res.fail("spec", sc, "length field = total byte count", got, "length field / len() do not equal the number of bytes")
 
